@@ -141,11 +141,11 @@ def run(ctx):
         for chunk in fw.split(list(range(N)), 1 if n < 5 else 16):
             args.append(("graphs", n, chunk, ctx.seed, ctx.deadline))
     rng = fw.rng_for("c04g6", ctx.seed)
-    for chunk in fw.split(sorted(rng.sample(range(1 << 15), 320 if q else 4000)), 16):
+    for chunk in fw.split(sorted(rng.sample(range(1 << 15), 320 if q else 12000)), 16):
         args.append(("graphs", 6, chunk, ctx.seed, ctx.deadline))
     for n in range(2, 7):
         reps = members.orbit_reps(n)
-        k = (3 if n <= 5 else 1) if q else (8 if n <= 5 else 4)
+        k = (3 if n <= 5 else 1) if q else (20 if n <= 5 else 10)
         for chunk in fw.split(reps, {2: 1, 3: 1, 4: 2, 5: 12, 6: 96}[n]):
             args.append((n, chunk, k, ctx.seed, ctx.deadline))
     args.sort(key=lambda a: -(a[1] if a[0] == "graphs" else a[0]))
